@@ -3,30 +3,41 @@
 
    Each future belongs to one client thread (the first that names it).  For every operation of
    every script the spec gives the observation the client must make; [None] = not determined by
-   the property text (printed as `?`).  *)
+   the property text (printed as `?`).
+
+   The state a client sees (isFinished()/isAborted()): the text says "after join, isAborted() is true
+   only if abort() was requested since the start, and isFinished() is true otherwise".  So after a
+   join of a call during which abort() was NOT requested the state is finished ([SsIs StFinished]);
+   after a join of a call during which abort() WAS requested it is finished or aborted, the text does
+   not say which ([SsDone], printed `FA`: exactly one of isFinished(), isAborted() holds) - also for a
+   function that returned BECAUSE it saw isAborting(): that the code then reports "aborted" is a fact
+   of the code (model), not a clause of the text.  While a call is in flight nothing is promised
+   ([SsAny], `?`). *)
 From Coq Require Import ZArith List Bool Lia.
 From Common Require Import ListAux.
 From Future Require Import FutureModel.
 Import ListNotations.
 Local Open Scope Z_scope.
 
+Inductive sstate := SsIs (s : fstate) | SsDone | SsAny.
+
 Record sfut := mkSfut {
   sp_serial : nat;             (* number of starts so far *)
   sp_active : bool;            (* started and not yet joined *)
   sp_arg : Z; sp_work : nat;   (* of the current call *)
   sp_ab : bool;                (* abort() requested since the last start *)
-  sp_state : option fstate;    (* state visible after the last join; None = either finished or aborted *)
+  sp_state : sstate;           (* state visible after the last join; SsDone = either finished or aborted *)
   sp_res : option Z;           (* value of the result slot; None = unspecified *)
   sp_owner : option nat
 }.
-Definition sfut_init : sfut := mkSfut 0 false 0 0 false (Some StIdle) None None.
+Definition sfut_init : sfut := mkSfut 0 false 0 0 false (SsIs StIdle) None None.
 
 Inductive sobs :=
 | SoStart (c f n : nat) (arg : Z)                       (* the call runs exactly once, with arg *)
 | SoAbort (c f n : nat)
 | SoJoin (c f : nat) (n : option nat)                   (* Some n: returns after completion of call n *)
 | SoGet (c f : nat) (n : option nat) (v : option Z)
-| SoCheck (c f n : nat) (st : option fstate) (ab : bool)
+| SoCheck (c f n : nat) (st : sstate) (ab : bool)
 | SoPause (c : nat)
 | SoDestroy (c f : nat) (n : option nat).               (* ~Future: returns after completion of call n *)
 
@@ -34,7 +45,7 @@ Inductive sobs :=
 Definition sp_join (fn : Z -> Z) (x : sfut) : sfut :=
   if sp_active x then
     mkSfut (sp_serial x) false (sp_arg x) (sp_work x) (sp_ab x)
-           (if (sp_work x =? 3)%nat then Some StAborted else if sp_ab x then None else Some StFinished)
+           (if sp_ab x then SsDone else SsIs StFinished)
            (Some (fn (sp_arg x))) (sp_owner x)
   else x.
 
@@ -57,7 +68,7 @@ Definition spec_step (fn : Z -> Z) (fs : list sfut) (c : nat) (op : cop) : list 
       (upd f y fs, SoGet c f (if sp_active x then Some (sp_serial x) else None) (sp_res y))
   | CCheck f =>
       let x := nth f fs sfut_init in
-      (fs, SoCheck c f (sp_serial x) (if sp_active x then None else sp_state x) (sp_ab x))
+      (fs, SoCheck c f (sp_serial x) (if sp_active x then SsAny else sp_state x) (sp_ab x))
   | CPause => (fs, SoPause c)
   | CDestroy f =>
       let x := nth f fs sfut_init in
@@ -72,17 +83,26 @@ Fixpoint spec_run (fn : Z -> Z) (fs : list sfut) (ops : list (nat * cop)) : list
   end.
 
 (* A script set is admissible when every future is used by one client only, every client exists,
-   and a call that waits for abort() has been aborted before anything waits for it (otherwise the
-   premise "the started functions terminate" of the property fails).  Calls that wait for abort()
-   are started by client 0 only and at most two of them are pending at a time: the pool has at
-   least three workers, so the pending ones can never occupy every worker while their owner is
-   blocked in a join of something queued behind them (the premise "do not wait on other futures"
-   read for the client that has to call abort()). *)
+   and the premise of the liveness clause holds FOR EVERY POOL SIZE >= 1 AND EVERY QUEUE CAPACITY >= 1
+   (the text quantifies over all of them): "the started functions terminate and do not wait on other
+   futures".  A function that polls isAborting() (work 3) terminates only when its owner reaches
+   abort().  The owner reaches it for certain only if nothing it does in between can wait for the
+   pool: join(), the conversion, the destructor and a further start() of the same future wait for a
+   call; start() of ANY future waits in the back-pressure loop when the queue is full, and a full queue
+   drains only when a worker is free - which the polling function itself may be occupying (one worker),
+   or two of them (two workers: the reading "at most two pending because the pool has three workers"
+   used a fact of the code, not of the text).  So: between the start of a polling call and the abort()
+   of that future its owner performs only abort(), the state queries and pauses; then every polling
+   function terminates whatever the pool looks like (abort() sets a flag of the Future, it reaches a
+   queued call as well as a running one), and the premise holds.  Any client may start such calls. *)
 Definition cop_fut (op : cop) : option nat :=
   match op with
   | CStart f _ _ | CAbort f | CJoin f | CGet f | CCheck f | CDestroy f => Some f
   | CPause | CResume _ _ _ => None
   end.
+
+Definition pending_of (c : nat) (st : list (option nat * bool)) : bool :=
+  existsb (fun x => match fst x with Some o => (o =? c)%nat && snd x | None => false end) st.
 
 Fixpoint valid_from (ncl : nat) (st : list (option nat * bool)) (ops : list (nat * cop)) : bool :=
   match ops with
@@ -97,11 +117,10 @@ Fixpoint valid_from (ncl : nat) (st : list (option nat * bool)) (ops : list (nat
           match own with Some o => (o =? c)%nat | None => true end &&
           match op with
           | CStart _ _ work =>
-              negb w3 &&
-              (if (work =? 3)%nat then (c =? 0)%nat && (length (filter (fun x => snd x) st) <? 2)%nat else true) &&
+              negb w3 && negb (pending_of c st) &&
               valid_from ncl (upd f (Some c, (work =? 3)%nat) st) rest
           | CAbort _ => valid_from ncl (upd f (Some c, false) st) rest
-          | CJoin _ | CGet _ | CDestroy _ => negb w3 && valid_from ncl (upd f (Some c, w3) st) rest
+          | CJoin _ | CGet _ | CDestroy _ => negb w3 && negb (pending_of c st) && valid_from ncl (upd f (Some c, w3) st) rest
           | _ => valid_from ncl (upd f (Some c, w3) st) rest
           end
       end
